@@ -428,6 +428,11 @@ func genKsScript(seed uint64) *KsScript {
 		switch r.Pick(weights) {
 		case 0:
 			keyN++
+			if r.Chance(0.1) {
+				// a name the file system refuses (a path separator in it, far too long): the save fails after it took the
+				// lock, and everything after it must still get its turn
+				a = []string{"did:panacea:A/key1", strings.Repeat("n", 300), "a/b/c"}[r.Intn(3)]
+			}
 			s.Tasks[t] = append(s.Tasks[t], KsOp{Kind: "save", Addr: a, Key: fmt.Sprintf("%064x", uint64(keyN)+seed<<8)})
 			saves = append(saves, idx)
 		case 1:
